@@ -12,6 +12,7 @@ package interp
 
 import (
 	"crypto/sha256"
+	"crypto/sha512"
 
 	"fmt"
 	"go/types"
@@ -382,9 +383,11 @@ func init() {
 // ---- Keccak state objects (sha3.NewLegacyKeccak256): native on concrete bytes ----
 
 type kstate struct {
-	in  []byte
-	out []byte // squeezed output so far consumed
-	pos int
+	sum         func([]byte) []byte // nil: keccak256
+	size, block int
+	in          []byte
+	out         []byte // squeezed output so far consumed
+	pos         int
 }
 
 func init() {
@@ -449,6 +452,62 @@ func init() {
 	}
 	externals["(*"+sha+".state).Size"] = func(fr *frame, args []value) value { return 32 }
 	externals["(*"+sha+".state).BlockSize"] = func(fr *frame, args []value) value { return 136 }
+
+	// crypto/sha256 and crypto/sha512 state objects: native on concrete bytes
+	type hkind struct {
+		pkg, ctor, typ string
+		size, block    int
+		sum            func([]byte) []byte
+	}
+	for _, hk := range []hkind{
+		{"crypto/sha256", "New", "digest", 32, 64, func(b []byte) []byte { h := sha256.Sum256(b); return h[:] }},
+		{"crypto/sha256", "New224", "digest", 28, 64, func(b []byte) []byte { h := sha256.Sum224(b); return h[:] }},
+		{"crypto/sha512", "New", "digest", 64, 128, func(b []byte) []byte { h := sha512.Sum512(b); return h[:] }},
+		{"crypto/sha512", "New384", "digest", 48, 128, func(b []byte) []byte { h := sha512.Sum384(b); return h[:] }},
+	} {
+		hk := hk
+		externals[hk.pkg+"."+hk.ctor] = func(fr *frame, args []value) value {
+			fr.i.x.stub("sha256 / sha512 state objects (native on concrete bytes)")
+			pkg := fr.i.prog.ImportedPackage(hk.pkg)
+			st := pkg.Type(hk.typ).Type()
+			c := zero(st)
+			p := &c
+			fr.i.side[p] = &kstate{sum: hk.sum, size: hk.size, block: hk.block}
+			return iface{t: types.NewPointer(st), v: p}
+		}
+		recv := "(*" + hk.pkg + "." + hk.typ + ")"
+		externals[recv+".Reset"] = externals["(*"+sha+".state).Reset"]
+		externals[recv+".Write"] = func(fr *frame, args []value) value {
+			k := get(fr, args[0])
+			in := args[1].([]value)
+			concrete := true
+			for _, e := range in {
+				if _, ok := e.(byte); !ok {
+					concrete = false
+				}
+			}
+			if concrete {
+				k.in = append(k.in, concreteBytes(in, "hash input")...)
+			} else {
+				// a blob / symbolic chunk enters as the injective digest of its content
+				d := hashBytes(in)
+				k.in = append(append(k.in, []byte("\x00chunk:")...), d[:]...)
+			}
+			return tuple{len(in), iface{}}
+		}
+		externals[recv+".Sum"] = func(fr *frame, args []value) value {
+			k := get(fr, args[0])
+			h := k.sum(k.in)
+			pre, _ := args[1].([]value)
+			out := append([]value{}, pre...)
+			for _, b := range h {
+				out = append(out, b)
+			}
+			return out
+		}
+		externals[recv+".Size"] = func(fr *frame, args []value) value { return get(fr, args[0]).size }
+		externals[recv+".BlockSize"] = func(fr *frame, args []value) value { return get(fr, args[0]).block }
+	}
 
 	// (*types.Transaction).Size: rlp length of the inner transaction; only
 	// compared with the 128 KB cap by the code under analysis
